@@ -248,6 +248,10 @@ func TestC08Chain(t *testing.T) {
 		maxBlocks := pbt.Scale(8, 20)
 		for i := 0; i < nm && !h.Dead; i++ {
 			nb := c.Int("blocks", 1, maxBlocks)
+			if c.Weighted("bigMomentum", 5, 1) == 1 {
+				// a momentum whose patch is several leveldb journal blocks long
+				nb = c.Int("bigBlocks", 18, 45)
+			}
 			for j := 0; j < nb && !h.Dead; j++ {
 				switch c.Weighted("act", 5, 3, 1) {
 				case 0:
